@@ -145,7 +145,7 @@ def extra(ctx):
                             f"uint32_t {name}({pt} x) {body}: the result of a nested call is used (by a branch condition / a return) before the call is sequenced"))
         ctx["stats"]["generated_routine_bodies_checked_for_temporary_order"] = len(td)
     except Exception as e:
-        ctx["broken"].append(Broken("correspondence", "tmp_def on generated sub-routine bodies", str(e)[-800:])) if "broken" in ctx else None
+        ctx["broken"].append(common.Broken("correspondence", "tmp_def on generated sub-routine bodies", str(e)[-800:]))
     for hid, inner, outer, t1, t2 in fwd:
         h, hr = byid[hid]
         st = hr.get("steps", [])
